@@ -1116,6 +1116,17 @@ class ParseTrans(VC):
 
         from pyvc import models as _models
         I.specs[("fn", id(set))] = lambda I_, st, args, kwargs, node: _models.instantiate(I_, st, set, args, kwargs, node)
+        def free_identifier(I_, st, args, kwargs, node):
+            # Parser.free_identifier: "Return a new free identifier as InternalName" (distinct from every template name)
+            n = len(st.ghost.get("free_ids", []))
+            r = st.alloc(HObj(N.InternalName, fields={"name": f"fi{n + 1}", "lineno": (list(args[1:]) + [kwargs.get("lineno")])[0], "environment": None}, path="free_identifier"))
+            st.get(r).plain_setattr = True
+            st.ghost = dict(st.ghost)
+            st.ghost["free_ids"] = list(st.ghost.get("free_ids", [])) + [r]
+            st.trace.append(Event("call", "Parser.free_identifier", list(args[1:]), dict(kwargs), r))
+            return [(st, r)]
+
+        I.specs["Parser.free_identifier"] = free_identifier
         I.specs["Parser.parse_expression"] = parse_expression
         I.specs["InternationalizationExtension._parse_block"] = parse_block
         I.specs["InternationalizationExtension._trim_whitespace"] = trim
@@ -1238,14 +1249,33 @@ class ParseTrans(VC):
         if exp[0] == "expr":
             want = st.ghost.get(f"expr{exp[1]}")
             return eqs(lambda r: True if r == want else False)
-        if exp[0] == "name" or exp[0] == "temp":
+        if exp[0] == "temp":
+            # the temporary the call was assigned to: the assignment's own target (an internal name), or a load of the
+            # same name when the target is an ordinary Name node
+            tgt = getattr(self, "_tmp_target", None)
+            if not (isinstance(tgt, Ref) and isinstance(st.get(tgt), HObj)):
+                return z3.BoolVal(False)
+            ht = st.get(tgt)
+
+            def pred_t(r):
+                h = st.get(r)
+                if getattr(h, "abstract_node", False):
+                    return False
+                if ht.cls is N.InternalName:
+                    return r == tgt
+                if h.cls is not N.Name or ht.cls is not N.Name:
+                    return False
+                try:
+                    return z3.And(sv(h.fields["name"]) == sv(ht.fields["name"]), sv(h.fields["ctx"]) == S("load"))
+                except Exception:
+                    return False
+            return eqs(pred_t)
+        if exp[0] == "name":
             def pred(r):
                 h = st.get(r)
                 if h.cls is not N.Name or getattr(h, "abstract_node", False):
                     return False
                 try:
-                    if exp[0] == "temp":
-                        return z3.And(sv(h.fields["name"]) == S("_trans"), sv(h.fields["ctx"]) == S("load"))
                     return z3.And(sv(h.fields["name"]) == exp[1], sv(h.fields["ctx"]) == S("load"))
                 except Exception:
                     return False
@@ -1270,6 +1300,13 @@ class ParseTrans(VC):
             return z3.BoolVal(False)
         exp = outcome[1]
         st = out.st
+        self._tmp_target = None
+        if exp["temp_assign"] is not None:
+            v0 = out.value
+            if isinstance(v0, Ref) and isinstance(st.get(v0), HList) and st.get(v0).concrete and len(st.get(v0).items) == 2:
+                a0 = st.get(v0).items[0]
+                if isinstance(a0, Ref) and isinstance(st.get(a0), HObj) and st.get(a0).cls is N.Assign:
+                    self._tmp_target = st.get(a0).fields.get("target")
         mk = [e for e in st.trace if e.kind == "call" and e.name == "_make_node"]
         if len(mk) != 1:
             return z3.BoolVal(False)
@@ -1334,8 +1371,14 @@ class ParseTrans(VC):
             if not (isinstance(v, Ref) and isinstance(st.get(v), HList) and st.get(v).concrete and len(st.get(v).items) == 2 and st.get(v).items[1] == made):
                 return z3.BoolVal(False)
             cs = []
-            r = match_tree(st, st.get(v).items[0], n_(N.Assign, target=n_(N.Name, name=s_("_trans"), ctx=s_("store")), node=("is", exp["temp_assign"])), cs, "result[0]")
-            if r is not True:
+            r = match_tree(st, st.get(v).items[0], n_(N.Assign, node=("is", exp["temp_assign"])), cs, "result[0]")
+            tgt = self._tmp_target
+            if r is not True or not (isinstance(tgt, Ref) and isinstance(st.get(tgt), HObj)):
+                return z3.BoolVal(False)
+            ht = st.get(tgt)
+            if ht.cls is N.Name:
+                conds.append(sv(ht.fields.get("ctx")) == S("store"))
+            elif ht.cls is not N.InternalName:
                 return z3.BoolVal(False)
             conds += cs
         elif v != made:
@@ -1364,7 +1407,25 @@ class ParseTrans(VC):
     def p_only_tse(self, pre, out):
         return True if not out.raised else is_tse(out)
 
-    posts = [("meaning", p_spec), ("make_node_requires", p_make_node_requires), ("only_TemplateSyntaxError", p_only_tse)]
+    def p_temporary(self, pre, out):
+        """C33_3 (hunt): the temporary that holds a call-valued count must not be a name a template can read or write
+        (a `{{ _trans }}` in or after the block, or a user variable of that name, would see / lose its value): it has to be
+        an internal name (Parser.free_identifier)."""
+        if out.raised:
+            return None
+        st, v = out.st, out.value
+        if not (isinstance(v, Ref) and isinstance(st.get(v), HList) and st.get(v).concrete):
+            return None
+        bad = False
+        for x in st.get(v).items:
+            if isinstance(x, Ref) and isinstance(st.get(x), HObj) and st.get(x).cls is N.Assign:
+                t = st.get(x).fields.get("target")
+                ok = isinstance(t, Ref) and isinstance(st.get(t), HObj) and st.get(t).cls is N.InternalName and t in st.ghost.get("free_ids", [])
+                bad = bad or not ok
+        return not bad
+
+    posts = [("meaning", p_spec), ("make_node_requires", p_make_node_requires), ("only_TemplateSyntaxError", p_only_tse),
+             ("temporary_is_internal_name", p_temporary)]
 
     def concretize(self, model, pre, out):
         mv = lambda t: model_value(model, t)  # noqa: E731
@@ -1380,6 +1441,8 @@ class ParseTrans(VC):
 
     def finding_key(self, res):
         w = res.witness or {}
+        if ".temporary_is_internal_name" in (res.name or ""):
+            return "call-valued-count:temporary-is-the-template-name-_trans" if w.get("expr0_is_call") else "temporary:other"
         return f"{w.get('head')}:{w.get('closing')}"
 
 
@@ -1426,6 +1489,10 @@ def replay_parse(w):
                 parg = names[i]
         src += "{% pluralize " + (parg + " " if w["tail"] == "B" else "") + "%}" + " \n many " + " ".join("{{ %s }}" % r for r in refs[1])
     src += "{% endtrans %}"
+    # a user variable called `_trans` keeps its value after the block (C33_3: the temporary of a call-valued count)
+    user_trans = "_trans" not in names and all("_trans" not in rs for rs in refs)
+    if user_trans:
+        src += "|{{ _trans }}"
     # the variable the documentation designates as the count gets the value `count`, every other variable 5
     bound_items = [it for it in HEADS[w["head"]] if it[0] in ("var", "bind")]
     bound_names = [names[it[1]] for it in bound_items]
@@ -1454,7 +1521,7 @@ def replay_parse(w):
         def f():
             calls.append(1)
             return val(names[0])
-        ctx = {"f": f}
+        ctx = {"f": f, "_trans": "USER"}
         for it in bound_items:
             if it[0] == "bind":
                 ctx[f"x{it[1]}"] = val(names[it[1]])
@@ -1487,6 +1554,8 @@ def replay_parse(w):
                 return True, detail + f": with {cv} = {count} the {want_form!r} form is expected"
             if o[3] > 1:
                 return True, detail + ": the count expression was evaluated more than once"
+        if user_trans and not text.endswith("|USER"):
+            return True, detail + ": the template variable `_trans` was overwritten by the block's temporary"
         if "WRONG-SCOPE" in text:
             return True, detail + ": a variable bound in the tag was looked up in the context"
         trimmed = {"trimmed": True, "notrimmed": False}[w["modifier"]] if any(it[0] == "mod" for it in HEADS[w["head"]]) else bool(w["policy"])
@@ -1513,7 +1582,7 @@ def parse_tasks():
                                                          ("var_var_var", "A", 1, 1, False), ("bind", "A", 0, 0, False)}:
             v.thorough_only = True
     groups = [vcs[i::4] for i in range(4)]
-    return [MultiTask(f"C33.parse[group {i}]", g) for i, g in enumerate(groups)]
+    return [MultiTask(f"C33.parse[group {i}]", g, strip_variant=True) for i, g in enumerate(groups)]
 
 
 
@@ -1978,7 +2047,52 @@ class NewStyle(VC):
         return replay_newstyle(w)
 
 
+class NewStyleParamNames(NewStyle):
+    """C33_1 (hunt): a trans variable may have ANY name, also the name of one of the wrapper's own parameters
+    (`__context`, `__string`, `__num`, ...): _make_node passes every variable as a keyword argument, so the wrapper must
+    take its fixed arguments positionally only.  The keyword set is the wrapper's declared parameter names, read from the
+    live closure."""
+
+    def __init__(self, which):
+        NewStyle.__init__(self, which, ())
+        live = self.factory(self.func)
+        co = live.__code__
+        self.kw = tuple(co.co_varnames[:co.co_argcount])
+        self.name = f"C33.newstyle.{which}.variables_named_like_parameters"
+
+    posts = [("no_collision", NewStyle.p_wrapper)]
+
+    def finding_key(self, res):
+        return "variable-named-like-a-wrapper-parameter"
+
+
+def replay_newstyle_templates(w):
+    """the hunt input: trans blocks whose variable is named like a parameter of the wrapper, rendered end to end"""
+    which = w["which"]
+    for nm in w["kw"]:
+        if not nm.isidentifier():
+            continue
+        head = ('"c" ' if which in ("pgettext", "npgettext") else "")
+        if which in ("ngettext", "npgettext"):
+            src, want = "{% trans " + head + "n=2, " + nm + '="x" %}one {{ ' + nm + " }}{% pluralize n %}many {{ " + nm + " }}{% endtrans %}", "many x"
+        else:
+            src, want = "{% trans " + head + nm + '="x" %}<{{ ' + nm + " }}>{% endtrans %}", "<x>"
+        env = jinja2.Environment(extensions=["jinja2.ext.i18n"])
+        env.install_null_translations(newstyle=True)
+        try:
+            got = env.from_string(src).render()
+        except Exception as ex:  # noqa
+            return True, f"new-style {src!r}: {type(ex).__name__}: {ex}; the block text is {want!r}"
+        if got != want:
+            return True, f"new-style {src!r} rendered {got!r}; the block text is {want!r}"
+    return False, ""
+
+
 def replay_newstyle(w):
+    if any(k.startswith("__") for k in w["kw"]):
+        bad, d = replay_newstyle_templates(w)
+        if bad:
+            return bad, d
     factory, params, i_num, i_ctx = WRAPPERS[w["which"]]
     rec = NAT._Recorder()
     wrapper = factory(getattr(rec, w["which"]))
@@ -1989,7 +2103,7 @@ def replay_newstyle(w):
     for count in (1, 3):
         vals["num"] = count
         pos = [vals[p] for p in params]
-        kw = {k: {"a": "<A>", "num": "<N>", "context": "<C>"}[k] for k in w["kw"]}
+        kw = {k: {"a": "<A>", "num": "<N>", "context": "<C>"}.get(k, f"<{k}>") for k in w["kw"]}
         kw.setdefault("a", "<A>") if "a" in w["kw"] else None
         fmt_vars = dict(kw)
         if i_ctx is not None:
@@ -2278,6 +2392,7 @@ def runtime_tasks():
     inst = [InstallCallables(g, p, q) for g in (False, True) for p, q in ((False, False), (True, True), (True, False))]
     inst += [Install(u, p) for u in (False, True) for p in (False, True)] + [InstallNull()]
     inst += [Uninstall(()), Uninstall(("gettext", "ngettext")), Uninstall(("gettext", "ngettext", "pgettext", "npgettext"))]
+    ns += [NewStyleParamNames(w) for w in WRAPPERS]
     return [MultiTask("C33.newstyle", ns), MultiTask("C33.install", inst)]
 
 
